@@ -100,6 +100,14 @@ def run_history(cfg, ops):
     for op in ops:
         if op[0] == 'ladder_flatten':
             expanded += [('ladder', op[1], op[2], op[3]), ('flatten', op[1], op[4])]
+        elif op[0] == 'trade_cycle':
+            # one whole trade the way strategies run it: buy, take-profit + stop-loss for the full size resting together, one of them
+            # fills, the other is cancelled, buy again, then an exit of a drawn size (1.0 = all of it, above 1 = must be rejected)
+            _, si, fill_kind, probe_kind, probe_size, poff = op
+            other = 'STOP' if fill_kind == 'LIMIT' else 'LIMIT'
+            expanded += [('submit', si, 'buy', 'MARKET', 0.5, 0, False), ('bracket', si, 1.0, 1.0), ('execute_kind', si, fill_kind),
+                         ('cancel_kind', si, other), ('submit', si, 'buy', 'MARKET', 0.5, 0, False),
+                         ('submit', si, 'sell', probe_kind, probe_size, poff, True)]
         else:
             expanded.append(op)
     ops = expanded
@@ -180,6 +188,9 @@ def run_history(cfg, ops):
                 what = 'bracket'
                 for typ, free, frac, price in (('LIMIT', free_l, op[2], round(cur + 5, 1)), ('STOP', free_s, op[3], max(0.1, round(cur - 5, 1)))):
                     qty = float(f'{free * frac:.8f}')
+                    if frac == 1.0:
+                        from decimal import Decimal
+                        qty = float(Decimal(repr(float(b.exchange.assets[s.split('-')[0]]))) - Decimal(repr(float(model.resting_sells(s, typ)))))  # exactly the reported free base
                     if qty <= 0:
                         continue
                     lhs, rhs = model.accepts(s, 'sell', typ, qty, price)
@@ -306,6 +317,21 @@ def run_history(cfg, ops):
                                  f'{side} {typ} qty={qty!r} price={price!r} accepted after cancelling {oldq!r}; needs {float(lhs)!r} but only {float(rhs)!r} available'))
                     break
                 live.append(o2)
+            elif kind in ('cancel_kind', 'execute_kind'):
+                s = syms[op[1] % len(syms)]
+                act = [o for o in live if o.is_active and o.symbol == s and o.side == 'sell' and o.type == op[2]]
+                if not act:
+                    continue
+                o = act[-1]
+                applied.append(op)
+                what = kind.split('_')[0] + '-' + o.side + '-' + o.type
+                if kind == 'cancel_kind':
+                    o.cancel()
+                    cancelled_side.add('sell')
+                else:
+                    b.positions[o.symbol].current_price = o.price
+                    o.execute()
+                    flags.add('exit-filled-with-its-sibling-resting')
             elif kind in ('cancel', 'execute'):
                 act = [o for o in live if o.is_active]
                 if not act:
@@ -393,7 +419,9 @@ def run_shard(acc, shard, nshards, seed, tier):
                        st.sampled_from([(0.3, 0.7), (0.5, 0.5), (0.3, 0.3, 0.4), (0.1, 0.9), (0.7, 0.3), (0.25, 0.5, 0.25)]))
     splits = st.sampled_from([(0.3, 0.7), (0.5, 0.5), (0.3, 0.3, 0.4), (0.1, 0.9), (0.7, 0.3), (0.25, 0.5, 0.25), (0.3003, 0.6997), (0.11, 0.89)])
     ladder_flatten = st.tuples(st.just('ladder_flatten'), st.integers(0, 1), st.sampled_from(['LIMIT', 'STOP']), splits, st.sampled_from(['MARKET', 'LIMIT', 'STOP']))
-    op = st.one_of(submit, submit, submit, modify, modify, bracket, flatten, ladder, ladder_flatten, ladder_flatten, ladder_flatten, st.tuples(st.just('execute'), st.integers(0, 9)), st.tuples(st.just('execute'), st.integers(0, 9)), st.tuples(st.just('cancel'), st.integers(0, 9)), st.tuples(st.just('cancel'), st.integers(0, 9)),
+    trade_cycle = st.tuples(st.just('trade_cycle'), st.integers(0, 1), st.sampled_from(['LIMIT', 'STOP']), st.sampled_from(['LIMIT', 'STOP', 'MARKET']),
+                            st.sampled_from([1.0, 1.01, 1.5, 1.5]), st.integers(-30, 30))
+    op = st.one_of(submit, submit, submit, modify, modify, bracket, flatten, ladder, ladder_flatten, ladder_flatten, ladder_flatten, trade_cycle, trade_cycle, st.tuples(st.just('execute'), st.integers(0, 9)), st.tuples(st.just('execute'), st.integers(0, 9)), st.tuples(st.just('cancel'), st.integers(0, 9)), st.tuples(st.just('cancel'), st.integers(0, 9)),
                    st.tuples(st.just('execute'), st.integers(0, 9)), st.tuples(st.just('price'), st.integers(0, 1), st.integers(-20, 20)))
     cfgs = st.fixed_dictionaries(dict(fee=st.sampled_from([0.0, 0.001, 0.00075, 0.0075]), balance=st.sampled_from([10_000.0, 1_000.0, 99.99]),
                                        nsym=st.integers(1, 2)))
